@@ -31,7 +31,7 @@ from asynciojobs import AbstractJob, Job, Scheduler, PureScheduler   # noqa: E40
 
 LOG = []
 CUR = contextvars.ContextVar("cur_sched", default=None)
-STATE = {"loop": None, "jobs": {}, "tasks": [], "taskinfo": {}, "active": False, "gen": 0}
+STATE = {"loop": None, "jobs": {}, "tasks": [], "taskinfo": {}, "cancelled": set(), "active": False, "gen": 0}
 
 
 def emit(*a):
@@ -128,6 +128,7 @@ class VTask(asyncio.Task):
             info = STATE["taskinfo"].get(id(self))
             if info:
                 emit("cancel" if info[0] == "job" else "hcancel", info[1])
+            STATE["cancelled"].add(id(self))
         return super().cancel(msg)
 
 
@@ -137,12 +138,26 @@ def factory(loop, coro, **kw):
     try:
         name = coro.cr_code.co_name
         loc = coro.cr_frame.f_locals
-        if name == "wrapped" and "job" in loc:
-            STATE["taskinfo"][id(t)] = ("job", loc["job"].name)
-            emit("create", loc["job"].name)
-        elif name == "co_shutdown" and "self" in loc:
+        mine = lambda v: hasattr(v, "spec") and hasattr(v, "name") and getattr(v, "gen", None) == STATE.get("gen")
+        if name == "co_shutdown" and "self" in loc and mine(loc["self"]):
+            # the public coroutine of a job / scheduler, run as a task by the shutdown broadcast
             STATE["taskinfo"][id(t)] = ("handler", loc["self"].name)
             emit("hcreate", loc["self"].name)
+        else:
+            # the task that runs a job: whatever the wrapper around job.co_run() is called, the job is among its
+            # arguments / closure variables (window.py: `wrapped`, closure variable `job`)
+            cands = [(k, v) for k, v in loc.items() if mine(v)]
+            pick = None
+            if "job" in loc and mine(loc["job"]):
+                pick = loc["job"]
+            elif len(cands) == 1:
+                pick = cands[0][1]
+            elif len(cands) > 1:
+                rest = [v for k, v in cands if k != "self"]
+                pick = rest[0] if len(rest) == 1 else None
+            if pick is not None:
+                STATE["taskinfo"][id(t)] = ("job", pick.name)
+                emit("create", pick.name)
     except Exception:                                       # noqa
         pass
     return t
@@ -201,7 +216,8 @@ async def vwait(fs, *, timeout=None, return_when=asyncio.ALL_COMPLETED):
     if return_when == asyncio.FIRST_COMPLETED:
         kind = "main"
     elif kinds == {"handler"}:
-        kind = "sdtidy" if caller == "_tidy_tasks" else "sd"
+        # the wait that follows the cancellation of the handlers (they all had cancel() called), or the bounded wait
+        kind = "sdtidy" if all(id(t) in STATE["cancelled"] or t.done() and t.cancelled() for t in fs) else "sd"
     else:
         kind = "tidy"
     s = CUR.get()
@@ -450,6 +466,7 @@ def run(sc, linger=None, shutdown_again=True):
     STATE["jobs"] = {}
     STATE["tasks"] = []
     STATE["taskinfo"] = {}
+    STATE["cancelled"] = set()
     STATE["timeout_ids"] = {}
     loop = VLoop()
     STATE["loop"] = loop
